@@ -47,7 +47,7 @@ InitState(h) ==
    ncb |-> 0, cbRaised |-> FALSE, cbX |-> <<>>,
    nit |-> 0, resol |-> NaN, nEnh |-> 0, done |-> FALSE,
    lastXin |-> <<>>, lastOut0 |-> NaN, conX |-> [j \in 1..h.ncon |-> <<>>],
-   initX |-> <<>>, initOut |-> <<>>, iterSites |-> <<>>]
+   initX |-> <<>>, initXu |-> <<>>, initOut |-> <<>>, iterSites |-> <<>>]
 
 StopStatus(r) == CASE r = "target" -> 1 [] r = "feasible" -> 4 [] r = "callback" -> 3
 
@@ -100,6 +100,7 @@ Step(h, st, ev) ==
                          !.stopAt = IF trg # {} /\ st.stop = {} THEN n1 ELSE @,
                          !.lastOut0 = IF Len(ev.out) > 0 THEN ev.out[1] ELSE NaN,
                          !.initX = IF ev.site = "INIT" THEN Append(@, st.lastXin) ELSE @,
+                         !.initXu = IF ev.site = "INIT" THEN Append(@, ev.xu) ELSE @,
                          !.initOut = IF ev.site = "INIT" /\ Len(ev.out) > 0 THEN Append(@, ev.out[1]) ELSE @]
     [] ev.e = "It" -> [st EXCEPT !.nit = @ + 1, !.iterSites = <<>>,
                                  !.resol = IF "resol" \in DOMAIN ev THEN ev.resol ELSE @]
@@ -212,7 +213,12 @@ FailTR(h, st, ev) ==
        \cup Sel(ev.exc # "none" \/ ev.nupd = ev.nmodels, "C12.generation")
     [] ev.e = "MInit" ->   \* the initial interpolation set: slot k holds the k-th sampled point and its value
             Sel(/\ Len(ev.pts) = Len(st.initX) /\ Len(ev.fvals) = Len(st.initOut)
-                /\ \A k \in DOMAIN ev.pts : SamePoint(ev.pts[k], st.initX[k]) /\ ev.fvals[k] = st.initOut[k],
+                /\ \A k \in DOMAIN ev.pts : SamePoint(ev.pts[k], st.initX[k]) /\ ev.fvals[k] = st.initOut[k]
+                \* when the variables are neither scaled nor reduced, the user's functions were called at
+                \* exactly the slot's point (a sample moved by a projection would carry another point's value)
+                /\ ((~h.scale /\ \A i \in DOMAIN h.fixed : ~h.fixed[i]) =>
+                      (/\ Len(st.initXu) = Len(ev.pts)
+                       /\ \A k \in DOMAIN ev.pts : SamePoint(ev.pts[k], st.initXu[k]))),
                 "C12.initial")
     [] ev.e = "Views" ->   \* value / gradient / Hessian / product / curvature belong to one quadratic
             Sel(\A m \in DOMAIN ev.err : Le(ev.err[m], ev.tol[m]), "C13.views")
